@@ -43,6 +43,8 @@ type Run struct {
 	// Panic holds the value of a panic that escaped FinalizeBlock/Commit.
 	Panic   interface{}
 	PanicAt int64
+	// PanicStage is "script" (harness: building the block's txs) or "abci" (FinalizeBlock / Commit).
+	PanicStage string
 }
 
 // Restart throws the application away and re-creates it over the same DB.
@@ -79,11 +81,12 @@ func ExecuteWith(h Hooks, tweak func(*world.Config)) (out []BlockDigest, run *Ru
 			h.BeforeBlock(i, run)
 		}
 		run.Height++
-		run.Time = run.Time.Add(2 * time.Second)
+		run.Time = run.Time.Add(time.Duration(1+(i*7)%5) * time.Second) // irregular block times: relayer picks depend on time mod n
 		stop := func() (stop bool) {
+			stage := "script"
 			defer func() {
 				if p := recover(); p != nil {
-					run.Panic, run.PanicAt = p, run.Height
+					run.Panic, run.PanicAt, run.PanicStage = p, run.Height, stage
 					stop = true
 				}
 			}()
@@ -100,6 +103,7 @@ func ExecuteWith(h Hooks, tweak func(*world.Config)) (out []BlockDigest, run *Ru
 				}
 				raw = append(raw, bz)
 			}
+			stage = "abci"
 			resp, err := run.W.App.FinalizeBlock(&abci.RequestFinalizeBlock{Height: run.Height, Time: run.Time, Txs: raw})
 			if err != nil {
 				out = append(out, BlockDigest{Height: run.Height, Hash: "finalize-error:" + err.Error()})
